@@ -233,6 +233,22 @@ pub struct Input {
     pub d: Vec<Q>,
 }
 static MODEL_GRAPHS: std::sync::OnceLock<Vec<Vec<[String; 3]>>> = std::sync::OnceLock::new();
+static MODEL_DATASETS: std::sync::OnceLock<Vec<Vec<[String; 4]>>> = std::sync::OnceLock::new();
+/// datasets printed by Gen_JsonLdSer: {"d":[[s,p,o,g],...]}
+pub fn load_model_datasets(path: &str) -> usize {
+    let txt = std::fs::read_to_string(path).expect("gen file");
+    let v: Vec<Vec<[String; 4]>> = txt
+        .lines()
+        .filter(|l| !l.trim().is_empty())
+        .map(|l| {
+            let g: Value = serde_json::from_str(l).unwrap();
+            g["d"].as_array().unwrap().iter().map(|t| [0, 1, 2, 3].map(|i| t[i].as_str().unwrap().to_string())).collect()
+        })
+        .collect();
+    let n = v.len();
+    let _ = MODEL_DATASETS.set(v);
+    n
+}
 pub fn load_model_graphs(path: &str) -> usize {
     let txt = std::fs::read_to_string(path).expect("gen file");
     let v: Vec<Vec<[String; 3]>> = txt
@@ -254,10 +270,19 @@ fn model_term(name: &str) -> ST {
         "nil" => rdf("nil"),
         "p" => iri("http://ex/p"),
         "first" => rdf("first"),
+        "type" => rdf("type"),
+        "List" => rdf("List"),
+        "g" => iri("http://ex/g"),
         _ => rdf("rest"),
     }
 }
 pub fn input_of(seed: u64, idx: usize, family: &str) -> Input {
+    if family == "jsonld-model" {
+        let g = &MODEL_DATASETS.get().expect("model datasets")[idx];
+        let d: Vec<Q> = g.iter().map(|t| ([model_term(&t[0]), model_term(&t[1]), model_term(&t[2])], if t[3] == "dg" { None } else { Some(model_term(&t[3])) })).collect();
+        // processing mode 1.1, use_rdf_type = false, no rdf_direction: the configuration JsonLdSer.tla transcribes (pm even and not a multiple of 3)
+        return Input { fmt: "jsonld", pretty: idx % 2 == 0, pm: 2, indent: 0, d };
+    }
     if family == "turtle-model" {
         let g = &MODEL_GRAPHS.get().expect("model graphs")[idx];
         let trig = idx % 5 == 4;
@@ -336,7 +361,7 @@ pub fn main(args: &[String]) {
     let family = arg(args, "--family").unwrap_or("turtle").to_string();
     let stride = arg_u64(args, "--stride", 1) as usize;
     if let Some(g) = arg(args, "--gen") {
-        n = load_model_graphs(g);
+        n = if family == "jsonld-model" { load_model_datasets(g) } else { load_model_graphs(g) };
     }
     if args.iter().any(|a| a == "--child") {
         let from = arg_u64(args, "--from", 0) as usize;
@@ -350,7 +375,7 @@ pub fn main(args: &[String]) {
             part.begin(idx);
             let ev = match family.as_str() {
                 "turtle" | "turtle-model" => run_turtle(&i),
-                "jsonld" => crate::rt2::run_jsonld(&i),
+                "jsonld" | "jsonld-model" => crate::rt2::run_jsonld(&i),
                 _ => crate::rt2::run_xml(&i),
             };
             part.result(&ev);
